@@ -117,7 +117,13 @@ func (fx *FX) execBuiltin(st *State, v ssa.Value, bi *ssa.Builtin, c *ssa.CallCo
 		fx.note("builtin delete abstracted")
 		return VUnit{}
 	case "recover":
-		return VIface{Tag: num(0), Box: num(0)}
+		// the recovered panic value: nil unless the function runs as a deferred call during a panic (ghost `panicking`)
+		tag := fx.fresh("recovered", SInt)
+		fx.assume(tTrue, ge(tag, num(0)))
+		box := fx.fresh("recoveredbox", SInt)
+		fx.assume(tTrue, implies(eq(tag, num(0)), eq(box, num(0))))
+		fx.recoverTags = append(fx.recoverTags, tag)
+		return VIface{Tag: tag, Box: box}
 	}
 	fx.note("builtin %s abstracted", bi.Name())
 	return fx.havocResult(c, bi.Name())
